@@ -13,7 +13,7 @@ def NOT_REPRODUCED(msg=''):
     print('not reproduced', msg); sys.exit(0)
 
 
-p = Path(Arc((1+0j), (1+1j), 0.0, True, False, 0j), Line(0j, -7.450580596923828e-09j), Line(0j, (1+0j)))
+p = Path(Arc((2-100001j), (1+1j), 0.0, True, False, (1-100001j)), QuadraticBezier(-100001j, -100001j, 0j), QuadraticBezier(0j, 100000j, 0j))
 opts = dict(useSandT=True, use_closed_attrib=False, rel=False)
 d = p.d(**opts)
 try:
